@@ -11,12 +11,14 @@ ASSUMPTIONS = [
 ]
 TRUSTED_EXTRA = []
 
-CHANGE = ("add", "addmany", "remove", "removemany", "removefiltered", "update", "updatemany", "removeread", "updateread")
+CHANGE = ("add", "addmany", "remove", "removemany", "removefiltered", "update", "updatemany", "removeread", "updateread", "updatefiltered")
 
 
 def expected(op, kind):
     """the one notification the property prescribes for a successful call"""
     n = op[0]
+    if n == "updatefiltered":
+        return "update"  # no specific callback exists for the filtered update
     if n in ("update", "updatemany"):
         if kind != "upd":
             return "update"
@@ -59,6 +61,10 @@ def judge(res, cfg, hist, i, op, rec, model, case, queries):
     success = rec["ret"] == "T" or (rec["ret"].startswith("L") and rec["ret"] != "L~") or (op[0] == "save" and rec["ret"] == "-")
     raised = rec["ret"].startswith("!")
     if raised:
+        return True
+    if sig_op[0] == "updatefiltered" and not save_on and notify_on:
+        # the property speaks about auto-save on (and about auto-notify off); the filtered update notifies outside
+        # the auto-save guard, which it neither demands nor forbids
         return True
     if op[0] == "save":
         exp = [expected(op, cfg.watcher)]
